@@ -213,19 +213,23 @@ pub fn child(scenario: &str, root: &str, prefix: &str) {
 
 pub fn listing(root: &str, prefix: &str) -> Vec<String> {
     let mut v = Vec::new();
-    fn walk(d: &std::path::Path, v: &mut Vec<String>) {
+    fn walk(d: &std::path::Path, v: &mut Vec<String>, depth: usize) {
         if let Ok(rd) = std::fs::read_dir(d) {
             for e in rd.flatten() {
                 let p = e.path();
                 if p.is_dir() {
-                    walk(&p, v);
+                    // directories below the domain-wide ones (root/nodes, root/services) belong to one node
+                    if depth >= 1 {
+                        v.push(format!("{}/", p.display()));
+                    }
+                    walk(&p, v, depth + 1);
                 } else {
                     v.push(p.display().to_string());
                 }
             }
         }
     }
-    walk(std::path::Path::new(root), &mut v);
+    walk(std::path::Path::new(root), &mut v, 0);
     if let Ok(rd) = std::fs::read_dir("/dev/shm") {
         for e in rd.flatten() {
             let n = e.file_name().to_string_lossy().to_string();
